@@ -1907,6 +1907,321 @@ static void run_direct(vrt_rng *r, int idx, long ops)
     vrt_count(c_cases, 1);
 }
 
+/* ======================================================================= */
+/* mode=life (C12): exit, cancel, revive, state machine */
+enum { LB_RETURN = 0, LB_YIELDS, LB_SELF_EXIT, LB_THREAD_EXIT, LB_UNTIL_CANCELLED, LB_BLOCK_THEN_RETURN, LB_NBEHAV };
+enum { LC_NONE = 0, LC_BEFORE_START, LC_WHILE_RUNNING, LC_WHILE_BLOCKED };
+static const char *lb_name[] = { "return", "yields", "self_exit", "thread_exit", "until-cancelled", "block-then-return" };
+static const char *lc_name[] = { "no-cancel", "cancel-before-start", "cancel-while-running", "cancel-while-blocked" };
+#define LMAXU 16
+typedef struct {
+    int id;
+    int is_task;
+    ABT_thread th;
+    pthread_mutex_t lock; /* protects th/sampling against the sampler */
+    int sampling;
+    /* current epoch */
+    uint64_t tag;
+    int behav, cancel_mode, pool;
+    int starts;        /* atomic */
+    int ends;          /* atomic */
+    int after_exit;    /* atomic */
+    int cancel_issued; /* atomic */
+    int slices_seeing_cancel; /* atomic */
+    int wrong_arg, wrong_pool; /* atomic */
+    int may_block;
+    ABT_eventual ev;
+    int blocker_running, release; /* atomic */
+    /* sampler state */
+    int term_seen;
+    int sampled_blocked;
+    long samples;
+} lu_t;
+static lu_t g_lu[LMAXU];
+static int g_nlu;
+static ABT_pool g_lpools[4];
+static int g_lsampler_stop;
+static int c_lepochs, c_lbehav[LB_NBEHAV], c_lcancel[4], c_lrevives, c_lsamples, c_lscen, c_ltask_epochs,
+    c_lcancel_never_started, c_lcancel_one_grace;
+
+typedef struct {
+    lu_t *u;
+    uint64_t tag;
+} larg_t;
+static larg_t g_larg[LMAXU];
+
+static void life_slice(lu_t *u)
+{
+    if (__atomic_load_n(&u->cancel_issued, __ATOMIC_SEQ_CST)) {
+        int n = __atomic_add_fetch(&u->slices_seeing_cancel, 1, __ATOMIC_SEQ_CST);
+        if (n >= 2)
+            vrt_violation("life:cancel-not-honoured",
+                          "unit %d started %d scheduling slices that already observed the cancellation request "
+                          "(behaviour %s)", u->id, n, lb_name[u->behav]);
+    }
+}
+
+static void life_fn(void *arg)
+{
+    larg_t *a = (larg_t *)arg;
+    lu_t *u = a->u;
+    if (a->tag != u->tag)
+        __atomic_store_n(&u->wrong_arg, 1, __ATOMIC_SEQ_CST);
+    int s = __atomic_add_fetch(&u->starts, 1, __ATOMIC_SEQ_CST);
+    if (s != 1)
+        vrt_violation("life:started-twice", "unit %d started %d times in one epoch", u->id, s);
+    ABT_pool lp = ABT_POOL_NULL;
+    if (ABT_self_get_last_pool(&lp) == ABT_SUCCESS && lp != g_lpools[u->pool])
+        __atomic_store_n(&u->wrong_pool, 1, __ATOMIC_SEQ_CST);
+    life_slice(u);
+    switch (u->behav) {
+        case LB_RETURN:
+            break;
+        case LB_YIELDS:
+            for (int i = 0; i < 6; i++) {
+                ABT_thread_yield();
+                life_slice(u);
+            }
+            break;
+        case LB_SELF_EXIT:
+        case LB_THREAD_EXIT:
+            ABT_thread_yield();
+            life_slice(u);
+            __atomic_add_fetch(&u->ends, 1, __ATOMIC_SEQ_CST);
+            if (u->behav == LB_SELF_EXIT)
+                ABT_self_exit();
+            else
+                ABT_thread_exit();
+            __atomic_store_n(&u->after_exit, 1, __ATOMIC_SEQ_CST);
+            return;
+        case LB_UNTIL_CANCELLED:
+            for (;;) {
+                ABT_thread_yield();
+                life_slice(u);
+                if (vrt_num_violations())
+                    break;
+            }
+            break;
+        case LB_BLOCK_THEN_RETURN:
+            ABT_eventual_wait(u->ev, NULL);
+            life_slice(u);
+            ABT_thread_yield();
+            life_slice(u);
+            break;
+    }
+    __atomic_add_fetch(&u->ends, 1, __ATOMIC_SEQ_CST);
+}
+
+static void lblocker(void *arg)
+{
+    lu_t *u = (lu_t *)arg;
+    __atomic_store_n(&u->blocker_running, 1, __ATOMIC_SEQ_CST);
+    while (!__atomic_load_n(&u->release, __ATOMIC_SEQ_CST))
+        sched_yield();
+}
+
+static void *lsampler(void *arg)
+{
+    (void)arg;
+    while (!__atomic_load_n(&g_lsampler_stop, __ATOMIC_SEQ_CST)) {
+        for (int i = 0; i < g_nlu; i++) {
+            lu_t *u = &g_lu[i];
+            pthread_mutex_lock(&u->lock);
+            if (u->sampling) {
+                ABT_thread_state st;
+                if (ABT_thread_get_state(u->th, &st) == ABT_SUCCESS) {
+                    u->samples++;
+                    if (u->term_seen && st != ABT_THREAD_STATE_TERMINATED)
+                        vrt_violation("life:state-after-terminated",
+                                      "unit %d was observed TERMINATED and later in state %d within the same epoch "
+                                      "(behaviour %s, %s)", u->id, (int)st, lb_name[u->behav], lc_name[u->cancel_mode]);
+                    if (st == ABT_THREAD_STATE_TERMINATED)
+                        u->term_seen = 1;
+                    if (st == ABT_THREAD_STATE_BLOCKED && !u->may_block)
+                        vrt_violation("life:blocked-state-for-nonblocking-unit",
+                                      "unit %d (behaviour %s) never blocks but was observed BLOCKED", u->id,
+                                      lb_name[u->behav]);
+                    if ((int)st < 0 || (int)st > (int)ABT_THREAD_STATE_TERMINATED)
+                        vrt_violation("life:invalid-state", "unit %d state value %d", u->id, (int)st);
+                }
+            }
+            pthread_mutex_unlock(&u->lock);
+        }
+        for (volatile int k = 0; k < 200; k++)
+            ;
+    }
+    return NULL;
+}
+
+static void life_epoch(vrt_rng *r, lu_t *u, int first)
+{
+    /* draw behaviour and cancellation */
+    for (;;) {
+        u->behav = (int)vrt_range(r, LB_NBEHAV);
+        u->cancel_mode = (int)vrt_range(r, 4);
+        if (u->is_task && u->behav != LB_RETURN)
+            continue;
+        if (u->is_task && u->cancel_mode >= LC_WHILE_RUNNING)
+            continue;
+        if (u->behav == LB_UNTIL_CANCELLED && u->cancel_mode != LC_WHILE_RUNNING)
+            continue;
+        if (u->cancel_mode == LC_WHILE_RUNNING && u->behav != LB_UNTIL_CANCELLED && u->behav != LB_YIELDS)
+            continue;
+        if (u->cancel_mode == LC_WHILE_BLOCKED && u->behav != LB_BLOCK_THEN_RETURN)
+            continue;
+        break;
+    }
+    u->pool = 1 + (int)vrt_range(r, 2);
+    u->tag = vrt_next(r);
+    u->starts = u->ends = u->after_exit = u->cancel_issued = u->slices_seeing_cancel = 0;
+    u->wrong_arg = u->wrong_pool = 0;
+    u->blocker_running = u->release = 0;
+    u->may_block = u->behav == LB_BLOCK_THEN_RETURN;
+    g_larg[u->id].u = u;
+    g_larg[u->id].tag = u->tag;
+    if (u->behav == LB_BLOCK_THEN_RETURN)
+        VRT_ABT(ABT_eventual_create(0, &u->ev));
+    ABT_thread blocker = ABT_THREAD_NULL;
+    if (u->cancel_mode == LC_BEFORE_START) {
+        VRT_ABT(ABT_thread_create(g_lpools[u->pool], lblocker, u, ABT_THREAD_ATTR_NULL, &blocker));
+        while (!__atomic_load_n(&u->blocker_running, __ATOMIC_SEQ_CST))
+            ABT_thread_yield();
+    }
+    pthread_mutex_lock(&u->lock);
+    u->term_seen = 0;
+    if (first) {
+        if (u->is_task)
+            VRT_ABT(ABT_task_create(g_lpools[u->pool], life_fn, &g_larg[u->id], &u->th));
+        else
+            VRT_ABT(ABT_thread_create(g_lpools[u->pool], life_fn, &g_larg[u->id], ABT_THREAD_ATTR_NULL, &u->th));
+    } else {
+        int rc = u->is_task ? ABT_task_revive(g_lpools[u->pool], life_fn, &g_larg[u->id], &u->th)
+                            : ABT_thread_revive(g_lpools[u->pool], life_fn, &g_larg[u->id], &u->th);
+        if (rc != ABT_SUCCESS)
+            vrt_violation("life:revive-rc", "revive of a terminated unit returned %d", rc);
+        vrt_count(c_lrevives, 1);
+    }
+    u->sampling = 1;
+    pthread_mutex_unlock(&u->lock);
+    /* cancellation */
+    if (u->cancel_mode == LC_BEFORE_START) {
+        VRT_ABT(ABT_thread_cancel(u->th));
+        __atomic_store_n(&u->cancel_issued, 1, __ATOMIC_SEQ_CST);
+        __atomic_store_n(&u->release, 1, __ATOMIC_SEQ_CST);
+    } else if (u->cancel_mode == LC_WHILE_RUNNING) {
+        while (!__atomic_load_n(&u->starts, __ATOMIC_SEQ_CST))
+            ABT_thread_yield();
+        VRT_ABT(ABT_thread_cancel(u->th));
+        __atomic_store_n(&u->cancel_issued, 1, __ATOMIC_SEQ_CST);
+    } else if (u->cancel_mode == LC_WHILE_BLOCKED) {
+        for (;;) {
+            ABT_thread_state st;
+            VRT_ABT(ABT_thread_get_state(u->th, &st));
+            if (st == ABT_THREAD_STATE_BLOCKED)
+                break;
+            ABT_thread_yield();
+        }
+        VRT_ABT(ABT_thread_cancel(u->th));
+        __atomic_store_n(&u->cancel_issued, 1, __ATOMIC_SEQ_CST);
+    }
+    if (u->behav == LB_BLOCK_THEN_RETURN) {
+        if (vrt_range(r, 2))
+            ABT_thread_yield();
+        VRT_ABT(ABT_eventual_set(u->ev, NULL, 0));
+    }
+    /* the joiner is released in every case */
+    VRT_ABT(u->is_task ? ABT_task_join(u->th) : ABT_thread_join(u->th));
+    ABT_thread_state st;
+    VRT_ABT(ABT_thread_get_state(u->th, &st));
+    VRT_CHECK(st == ABT_THREAD_STATE_TERMINATED, "life:state-after-join", "state %d after join", (int)st);
+    if (blocker != ABT_THREAD_NULL)
+        VRT_ABT(ABT_thread_free(&blocker));
+    int starts = __atomic_load_n(&u->starts, __ATOMIC_SEQ_CST);
+    int ends = __atomic_load_n(&u->ends, __ATOMIC_SEQ_CST);
+    if (u->cancel_mode == LC_BEFORE_START) {
+        VRT_CHECK(starts == 0, "life:cancelled-before-start-but-ran",
+                  "unit %d was cancelled before its first scheduling point but its function was started %d times", u->id, starts);
+        vrt_count(c_lcancel_never_started, 1);
+    } else {
+        VRT_CHECK(starts == 1, "life:not-started-exactly-once", "unit %d (%s, %s): function started %d times in this epoch",
+                  u->id, lb_name[u->behav], lc_name[u->cancel_mode], starts);
+        if (u->cancel_mode == LC_NONE)
+            VRT_CHECK(ends == 1, "life:not-completed", "unit %d (%s): completed %d times", u->id, lb_name[u->behav], ends);
+        if (u->cancel_mode != LC_NONE && __atomic_load_n(&u->slices_seeing_cancel, __ATOMIC_SEQ_CST) == 1)
+            vrt_count(c_lcancel_one_grace, 1);
+    }
+    VRT_CHECK(!u->after_exit, "life:ran-after-exit", "unit %d continued after ABT_%s_exit", u->id,
+              u->behav == LB_SELF_EXIT ? "self" : "thread");
+    VRT_CHECK(!u->wrong_arg, "life:wrong-argument", "unit %d ran with another epoch's argument (revive)", u->id);
+    VRT_CHECK(!u->wrong_pool, "life:wrong-pool", "unit %d did not start from the requested pool %d", u->id, u->pool);
+    if (u->behav == LB_BLOCK_THEN_RETURN)
+        VRT_ABT(ABT_eventual_free(&u->ev));
+    vrt_count(c_lepochs, 1);
+    vrt_count(c_lbehav[u->behav], 1);
+    vrt_count(c_lcancel[u->cancel_mode], 1);
+    if (u->is_task)
+        vrt_count(c_ltask_epochs, 1);
+}
+
+static void run_life(vrt_rng *r, int idx, int max_cycles)
+{
+    VRT_ABT(ABT_init(0, NULL));
+    world_t w;
+    static const int pk[] = { ABT_POOL_FIFO, ABT_POOL_FIFO_WAIT, ABT_POOL_RANDWS };
+    static const int sp[] = { ABT_SCHED_BASIC, ABT_SCHED_PRIO, ABT_SCHED_DEFAULT, ABT_SCHED_BASIC_WAIT };
+    int s = sp[vrt_range(r, 4)];
+    world_create(&w, 3, 0, s == ABT_SCHED_BASIC_WAIT ? ABT_POOL_FIFO_WAIT : pk[vrt_range(r, 3)], s);
+    for (int i = 0; i < 3; i++)
+        g_lpools[i] = w.pools[i];
+    g_nlu = 1 + (int)vrt_range(r, LMAXU);
+    memset(g_lu, 0, sizeof(g_lu));
+    for (int i = 0; i < g_nlu; i++) {
+        g_lu[i].id = i;
+        g_lu[i].is_task = vrt_range(r, 4) == 0;
+        pthread_mutex_init(&g_lu[i].lock, NULL);
+    }
+    g_lsampler_stop = 0;
+    pthread_t samp;
+    pthread_create(&samp, NULL, lsampler, NULL);
+    long total_cycles = 0;
+    for (int i = 0; i < g_nlu && vrt_num_violations() == 0; i++) {
+        lu_t *u = &g_lu[i];
+        int cycles = 1 + (int)vrt_range(r, vrt_range(r, 6) == 0 ? (uint64_t)max_cycles : 8);
+        for (int c = 0; c < cycles && vrt_num_violations() == 0; c++)
+            life_epoch(r, u, c == 0);
+        total_cycles += cycles;
+        pthread_mutex_lock(&u->lock);
+        u->sampling = 0;
+        pthread_mutex_unlock(&u->lock);
+        if (vrt_num_violations() == 0) {
+            VRT_ABT(u->is_task ? ABT_task_free(&u->th) : ABT_thread_free(&u->th));
+            VRT_CHECK(u->th == ABT_THREAD_NULL || u->th == ABT_TASK_NULL, "life:handle-after-free", "handle not NULL");
+        }
+    }
+    __atomic_store_n(&g_lsampler_stop, 1, __ATOMIC_SEQ_CST);
+    pthread_join(samp, NULL);
+    long ns = 0;
+    for (int i = 0; i < g_nlu; i++) {
+        ns += g_lu[i].samples;
+        pthread_mutex_destroy(&g_lu[i].lock);
+    }
+    vrt_count(c_lsamples, (uint64_t)ns);
+    if (vrt_num_violations())
+        return;
+    char wd[128];
+    world_describe(&w, wd, sizeof(wd));
+    if (idx < 2)
+        vrt_sample("life scenario %d: %s, %d named units (ULTs and tasklets), %ld create/revive epochs in total, each with a "
+                   "behaviour (return, yields, self_exit, thread_exit, until-cancelled, block-then-return) and a cancellation "
+                   "mode (none, before start, while running, while blocked); state sampler thread", idx, wd, g_nlu,
+                   total_cycles);
+    vrt_signature_add("%s,u%d", wd, g_nlu);
+    world_destroy(&w);
+    VRT_ABT(ABT_finalize());
+    vrt_count(c_lscen, 1);
+    vrt_count(c_cases, 1);
+}
+
 int main(int argc, char **argv)
 {
     vrt_init(argc, argv, "h_units");
@@ -1999,6 +2314,24 @@ int main(int argc, char **argv)
         int n = (int)vrt_arg_int("scenarios", 20);
         for (int i = 0; i < n && vrt_num_violations() == 0; i++)
             run_direct(&r, i, vrt_arg_int("ops", 3000));
+    } else if (!strcmp(mode, "life")) {
+        c_lepochs = vrt_counter("epochs");
+        for (int i = 0; i < LB_NBEHAV; i++) {
+            char nm[64];
+            snprintf(nm, sizeof(nm), "behaviour_%s", lb_name[i]);
+            c_lbehav[i] = vrt_counter(nm);
+        }
+        for (int i = 0; i < 4; i++)
+            c_lcancel[i] = vrt_counter(lc_name[i]);
+        c_lrevives = vrt_counter("revives");
+        c_lsamples = vrt_counter("state_samples");
+        c_lscen = vrt_counter("life_scenarios");
+        c_ltask_epochs = vrt_counter("tasklet_epochs");
+        c_lcancel_never_started = vrt_counter("cancelled_units_never_started");
+        c_lcancel_one_grace = vrt_counter("cancelled_units_used_one_slice_of_grace");
+        int n = (int)vrt_arg_int("scenarios", 10);
+        for (int i = 0; i < n && vrt_num_violations() == 0; i++)
+            run_life(&r, i, (int)vrt_arg_int("max-cycles", 200));
     } else {
         vrt_fatal("unknown mode %s", mode);
     }
